@@ -22,6 +22,7 @@ pub enum Ev {
     ResetElapsed,
     Rewind,
     Finish,
+    Abandon,
 }
 
 pub struct C09 {
@@ -76,6 +77,10 @@ fn apply(pb: &ProgressBar, ev: &Ev, pos: &mut u64) {
             pb.finish();
             *pos = LEN;
         }
+        Ev::Abandon => {
+            clock::advance_ns(S);
+            pb.abandon();
+        }
     }
 }
 
@@ -99,7 +104,7 @@ impl Hist for C09 {
     type Op = Ev;
 
     fn alphabet(&self, prefix: &[Ev]) -> Vec<Ev> {
-        if prefix.last() == Some(&Ev::Finish) {
+        if matches!(prefix.last(), Some(Ev::Finish | Ev::Abandon)) {
             return vec![];
         }
         match self.steady {
@@ -111,7 +116,7 @@ impl Hist for C09 {
                         v.push(Ev::Inc(g, d));
                     }
                 }
-                v.extend([Ev::ResetEta, Ev::Reset, Ev::ResetElapsed, Ev::Finish]);
+                v.extend([Ev::ResetEta, Ev::Reset, Ev::ResetElapsed, Ev::Finish, Ev::Abandon]);
                 // a backwards seek needs a position to go back from
                 let mut pos = 0u64;
                 for e in prefix {
@@ -155,7 +160,7 @@ impl Hist for C09 {
             Err(p) => return bad(&format!("panic: {}", panic_class(&p)), p),
             Ok(x) => x,
         };
-        let finished = hist.last() == Some(&Ev::Finish);
+        let finished = matches!(hist.last(), Some(Ev::Finish | Ev::Abandon));
         // segments since the last reset-like event
         let k = hist.iter().rposition(|e| matches!(e, Ev::ResetEta | Ev::Reset | Ev::ResetElapsed | Ev::Rewind));
         let after: &[Ev] = match k {
